@@ -8,6 +8,7 @@ import RoaringModel.Lemmas.SpecRoundTrip
 import RoaringModel.Lemmas.TreemapCodec
 import RoaringModel.Lemmas.TreemapEncodeSpec
 import RoaringModel.Lemmas.TreemapCodecWF
+import RoaringModel.Lemmas.FidelityCodec
 /-!
 # C05 — serialization is exact, deterministic and format-conformant (32-bit half)
 -/
@@ -97,6 +98,44 @@ example : Bitmap.WF [{ key := 0, store := .array [1, 5, 65535] }, { key := 65535
   simp only [List.mem_cons, List.not_mem_nil, or_false] at hc
   rcases hc with rfl | rfl <;> refine ⟨by decide, by decide, ?_, by decide, by decide⟩ <;>
     (intro x hx; simp only [List.mem_cons, List.not_mem_nil, or_false] at hx; omega)
+
+/-! ### the encoder the driver executes: `(container.len() - 1) as u16` in `u64` arithmetic (fidelity audit)
+
+`Bitmap.serialize` writes the cardinality field with the truncated `Nat` subtraction `len - 1`; the Rust computes
+`container.len() - 1` on `u64` (panic with overflow checks on / wrap to `0xFFFF` with them off when `len = 0`).
+`Bitmap.serializeM ovf` (Ser.lean) has exactly that arithmetic; it is what `ser` / `dump` / `deser_prefix` of the driver
+run.  For well-formed values (no empty container) the two coincide, in both build configurations. -/
+
+/-- a well-formed value has no empty container -/
+theorem wf_len_pos (b : Bitmap) (h : Bitmap.WF b) : ∀ c ∈ b, 1 ≤ c.len := by
+  intro c hc
+  have hst : Store.WF c.store := (h.2 c hc).2
+  unfold Container.len Store.len
+  cases hs : c.store with
+  | array v => rw [hs] at hst; exact hst.2.1
+  | bitmap bs => rw [hs] at hst; have := hst.2; simp only []; omega
+
+/-- **mirror.** -/
+theorem C05_serialize_mirror_eq (ovf : Bool) (b : Bitmap) (h : Bitmap.WF b) :
+    Bitmap.serializeM ovf b = some (Bitmap.serialize b) :=
+  Fidelity.serializeM_eq ovf b (wf_len_pos b h)
+
+/-- **C05_bytes / C05_size for the executed encoder**: no panic in either build configuration, the bytes are the
+    reference encoding of the element set, and their number is `serialized_size()`. -/
+theorem C05_bytes_mirror (ovf : Bool) (b : Bitmap) (h : Bitmap.WF b) :
+    Bitmap.serializeM ovf b = some (Spec.encode (Bitmap.elems b)) ∧
+    (Spec.encode (Bitmap.elems b)).length = Bitmap.serializedSize b := by
+  rw [C05_serialize_mirror_eq ovf b h, ← C05_bytes b h]
+  exact ⟨rfl, C05_size b h⟩
+
+/-- **round trip for the executed encoder** -/
+theorem C05_decode_mirror (ovf chk dbg : Bool) (b : Bitmap) (h : Bitmap.WF b) (rest : List Nat) :
+    ∃ bytes, Bitmap.serializeM ovf b = some bytes ∧ deserialize chk dbg (bytes ++ rest) = .ok (b, rest) :=
+  ⟨Bitmap.serialize b, C05_serialize_mirror_eq ovf b h, C05_decode chk dbg b h rest⟩
+
+/-- concrete: the executed encoder on a two-chunk value, both build configurations -/
+example : ∀ ovf, Bitmap.serializeM ovf [{ key := 0, store := .array [1, 5, 65535] }, { key := 65535, store := .array [0] }]
+    = some (Spec.encode [1, 5, 65535, 4294901760]) := by decide
 
 end Roaring.C05
 
@@ -206,5 +245,17 @@ theorem C05_t_conformant (t : Treemap) (h : Treemap.WFd Bitmap.WF t) (rest : Lis
 /-- concrete agreement (no hypothesis): partitions 0 and `u32::MAX` -/
 example : Treemap.serialize [(0, [{ key := 0, store := .array [1, 5] }]), (4294967295, [{ key := 65535, store := .array [65535] }])]
     = Spec.encode64 [1, 5, 18446744073709551615] := by decide
+
+/-! ### the treemap encoder the driver executes (fidelity audit): inner 32-bit streams through `Bitmap.serializeM` -/
+
+/-- **mirror (64-bit).** For a well-formed treemap the executed encoder does not panic in either build
+    configuration and emits the bytes of `Treemap.serialize` (= `Spec.encode64 (elems t)` by `C05_t_bytes`). -/
+theorem C05_t_serialize_mirror_eq (ovf : Bool) (t : Treemap) (h : Treemap.WFd Bitmap.WF t) :
+    Treemap.serializeM ovf t = some (Treemap.serialize t) :=
+  Fidelity.tserializeM_eq ovf t (fun p hp => wf_len_pos p.2 (h.parts p hp).2.1)
+
+theorem C05_t_bytes_mirror (ovf : Bool) (t : Treemap) (h : Treemap.WFd Bitmap.WF t) :
+    Treemap.serializeM ovf t = some (Spec.encode64 (Treemap.elems t)) := by
+  rw [C05_t_serialize_mirror_eq ovf t h, C05_t_bytes t h]
 
 end Roaring.C05
